@@ -12,6 +12,7 @@
 #include <map>
 #include <set>
 #include <sstream>
+#include <streambuf>
 #include <string>
 #include <unordered_set>
 #include <vector>
@@ -19,6 +20,13 @@
 #include "tape.hpp"
 
 namespace verif {
+
+/// Discards everything written to it (the library's progress chatter).
+class NullBuf : public std::streambuf {
+ public:
+  int overflow(int c) override { return c; }
+  std::streamsize xsputn(const char *, std::streamsize n) override { return n; }
+};
 
 inline std::string jsonEscape(const std::string &s) {
   std::string o;
